@@ -60,6 +60,7 @@ package tensor
 //@   ensures [nil] len(s) == 0 ==> result == nil
 //@   ensures [value] len(s) > 0 ==> len(result) == len(s) && (forall i :: 0 <= i && i < len(s) ==> result[i] == sufprod(s, i+1))
 //@   ensures [fresh] len(s) > 0 ==> fresh(result)
+//@   ensures [lib_owned] len(s) > 0 ==> gh("lib", result.arr) == 1
 //@   assigns nothing
 //@   loop 0 invariant [acc] -1 <= i && i < len(s) && acc == sufprod(s, i+1) && len(retVal) == len(s) && fresh(retVal) && (forall j :: i < j && j < len(s) ==> retVal[j] == sufprod(s, j+1))
 //@   loop 0 decreases i + 1
@@ -71,6 +72,7 @@ package tensor
 //@   ensures [vector] !allOnes(s) && isVec(s) ==> len(result) == 1 && result[0] == 1
 //@   ensures [value] !allOnes(s) && !isVec(s) ==> len(result) == len(s) && (forall i :: 0 <= i && i < len(s) ==> result[i] == preprod(s, i))
 //@   ensures [fresh] !allOnes(s) ==> fresh(result)
+//@   ensures [lib_owned] !allOnes(s) ==> gh("lib", result.arr) == 1
 //@   assigns nothing
 //@   loop 0 invariant [acc] 0 <= i && i <= len(s) && acc == preprod(s, i) && len(retVal) == len(s) && fresh(retVal) && (forall j :: 0 <= j && j < i ==> retVal[j] == preprod(s, j))
 //@   loop 0 decreases len(s) - i
